@@ -402,7 +402,10 @@ A buffer is thought of as one cell per iteration of "the loop that indexes it":
   *every* iteration (on every branch); then, after the loop, all cells are written (→ `init`, or → `cell`
   for the enclosing loop).  An iteration that ends with `x` still `empty` leaves a garbage cell behind
   for good (`poison`);
-* reading `x` while it is not `init` is a read of uninitialised memory.
+* reading `x` while it is not `init` is a read of uninitialised memory;
+* `allocEmpty x` inside a loop that indexes `x` (re-allocation: the cells written by earlier iterations are
+  lost) is refused by `initAn` — without this the analysis is unsound w.r.t. `PathI`
+  (`Mir.C15.realloc_in_indexing_loop`).
 -/
 
 inductive IStat where
@@ -500,7 +503,8 @@ def fillSomeStat : IStat → IStat
   | _ => .cell
 
 /-- must-analysis: returns the status after the statement and whether every read so far was of
-    initialised memory.  `ctx` = buffers indexed by the enclosing loops. -/
+    initialised memory (and no buffer was re-allocated inside a loop that indexes it).
+    `ctx` = buffers indexed by the enclosing loops. -/
 def initAn (ctx : List Var) : Stmt → IEnv → IEnv × Bool
   | .skip, e => (e, true)
   | .seq a b, e =>
@@ -525,7 +529,8 @@ def initAn (ctx : List Var) : Stmt → IEnv → IEnv × Bool
             let stable := IEnv.leq (IEnv.feedback b e t2 0) start
             (IEnv.afterLoop b ctx e t2 0, ok2 && stable)
   | .globalWrite _, e => (e, true)
-  | .allocEmpty x, e => (e.set x .empty, true)
+  -- re-allocating a buffer inside a loop that indexes it would throw away the cells written so far: refused
+  | .allocEmpty x, e => (e.set x .empty, !ctx.contains x)
   | .fillAll x, e => (e.set x .init, true)
   | .fillSome x, e => (e.set x (fillSomeStat (e.get x)), true)
   | .ret srcs, e => (e, readsOK e srcs)
